@@ -882,6 +882,26 @@ theorem numEF_sem {d : Doc} (wf : WF d) (cfg : ECfg) (hns : cfg.nsIface = true)
     (countOK_flat wf cfg hns hinj regexOk limit sdf c hc i n)
     (sumOK_flat wf cfg hns hinj regexOk limit sdf c hc i n) (modOK_dom d _) he fl st o hb
 
+/-- the document-independent fragment with `count`: literals, `+ - * div`, groups, `floor`, `ceiling`,
+`number`, `number('…')`, `string-length('…')` and `count` over flat paths; no `sum`, no `mod` (whose
+oracle-side domains depend on the document).  This is the arithmetic fragment C07's `XExp` embeds
+(`not(count(a))`, `count(a) > 1`, `1 + 1 = 2` …). -/
+abbrev NumEC : Ast → Prop := NumEG FlatPath (fun _ => False) (fun _ _ => False)
+
+theorem NumEC.numEF {d : Doc} {ctx : Spec.Ctx} {e : Ast} (he : NumEC e) : NumEF d ctx F e :=
+  NumEG.mono (fun _ h => h) (fun _ h => h.elim) (fun _ _ h => h.elim) he
+
+/-- **C08 on `NumEC`**: under the standing assumptions of C01 -/
+theorem numEC_sem {d : Doc} (wf : WF d) (cfg : ECfg) (hns : cfg.nsIface = true)
+    (hinj : HashInj d cfg) (regexOk : RegexOk) (limit : Nat) (sdf : Bool)
+    (c : Ref) (hc : validRef d c = true) (i n : Nat) {e : Ast} (he : NumEC e)
+    (fl : Flags) (st : BState) (o : BOut) (hb : build regexOk limit true sdf e fl st = .ok o) :
+    ∃ x : F, evalP (F := F) d cfg o.q c = .ok (.num x) ∧
+      Spec.eval (F := F) d e ⟨c, i, n⟩ = .ok (.val (.num x) none) :=
+  numEG_sem d cfg regexOk limit true sdf ⟨c, i, n⟩
+    (countOK_flat wf cfg hns hinj regexOk limit sdf c hc i n)
+    (sumOK_false d cfg regexOk limit true sdf _) (modOK_false d _) he fl st o hb
+
 /-- unary minus: the parser's `x * -1` is in the fragment -/
 theorem NumEG.neg {CP SP : Ast → Prop} {MP : Ast → Ast → Prop} {a : Ast} (h : NumEG CP SP MP a) :
     NumEG CP SP MP (.oper "*" a (.num "-1")) :=
